@@ -1502,6 +1502,7 @@ func buildFromStringProto(src protoreflect.FieldDescriptor, ext protoFieldExtens
 				ForeignKey: psmKeyExt.ForeignKey,
 			}
 		}
+		ee.TenantKey = psmKeyExt.TenantType
 		keyField.Entity = ee
 	}
 
